@@ -179,7 +179,7 @@ fn main() {
          (c) regression: every prediction vector x every non-constant truth vector of length 2..4 over {-2,-1,0,.5,1,3} in f64 (thorough: also length 5 over {-2,0,.5,1,3}; f32: 2..3 / 2..4), plus a 2-column matrix case for n<=3 / n<=4; \
          (d) silhouette: every multiset of 4..6 / 4..7 points of {0..4} (multiplicity <=2) and every 4..5 / 4..6 subset of the 3x3 lattice x every labelling with 2 (n<=5) or 3 (n>=6) label values; \
          (c2/b2) structured long vectors: regression vectors of every length 6..40 / 6..72 whose absolute errors are every strided permutation (stride coprime to n, every offset [every third in quick]) of n distinct values, and score vectors of length 6..20 / 6..32 with heavy ties ((i*s+o) mod m)/m, m in {2,3,4,7}; \
-         (e) Pearson: every matrix with 2..4 rows and 2..3 columns (quick) / up to 5 rows or 4 columns (thorough) over {-1,0,2} (and {-1,0,.5,2}). \
+         (e) Pearson: every matrix with 2..4 rows and 2..3 columns (quick) / up to 5 rows or 4 columns (thorough) over {-1,0,2} (and {-1,0,.5,2}), plus every 4x4 and 3x5 (thorough: 4x5) matrix over {-1,2} so that the order of the packed coefficients is observable. \
          Every case is additionally re-run under permutations applied to both sides: all n!-1 for small n (usize/String labels n<=4, bool n<=4/5, scores n<=4/5, regression n<=3/4, silhouette n<=4/5, Pearson rows<=4), the generating set {swap(0,1), rotation, reversal} beyond (the sweep visits every input, so invariance under generators at every input implies invariance under every permutation); quick runs the longest regression length without explicit permutations. \
          evaluations = distinct in-domain inputs run through all of their metrics; non-trivial = labels: >=2 classes and prediction != truth; scores: 0 < AUC < 1; regression: prediction != truth; silhouette: every in-domain labelling; Pearson: some |r| < 1.",
     );
@@ -344,7 +344,15 @@ fn main() {
         ("f32", pa3.clone(), 3, 3),
         ("f32", pa3.clone(), 4, 2),
     ];
+    // four and five columns over a two-letter alphabet: the packed upper-triangle ORDER of the
+    // coefficients only becomes observable from four features on ((0,3) and (1,2) swap places
+    // between row-major and column-major packing)
+    let pa2: Vec<f64> = vec![-1.0, 2.0];
+    pearson_shapes.push(("f64", pa2.clone(), 4, 4));
+    pearson_shapes.push(("f64", pa2.clone(), 3, 5));
     if ctx.thorough() {
+        pearson_shapes.push(("f64", pa2.clone(), 4, 5));
+        pearson_shapes.push(("f32", pa2.clone(), 4, 4));
         pearson_shapes.push(("f64", pa3.clone(), 4, 3));
         pearson_shapes.push(("f64", pa3.clone(), 3, 4));
         pearson_shapes.push(("f64", pa3.clone(), 5, 2));
